@@ -106,7 +106,7 @@ def deleteMapEntry (left : Node) (index : Obj) : M Obj := do
     match ← envGet e id with
     | none => pure (.bool false)
     | some obj =>
-      -- the map may belong to an outer scope: look through the reference (repo fix 9607a64), as `evalIndexAssigment` does
+      -- the map may belong to an outer scope: look through the reference (repo fix 908cebf), as `evalIndexAssigment` does
       let obj ← valueOf obj
       match obj with
       | .map big kvs =>
@@ -168,7 +168,7 @@ def splitArgs (f : FuncVal) (args : List Obj) : List String × List Obj × List 
   else (f.params, args, [])
 
 /-- `NewFunctionEnvironment`'s test "the callee is the function this frame is running" (a recursive call): same
-printed text AND same defining environment, i.e. the same closure (repo fix 15db210: the text alone made two
+printed text AND same defining environment, i.e. the same closure (repo fix 0558004: the text alone made two
 closures of one factory "the same function", so the callee looked its captures up in the caller's frame) -/
 def sameFunction (cf : Frame) (f : FuncVal) : Bool :=
   cf.cacheKey == f.key && (match cf.function with
